@@ -3,9 +3,13 @@ package atomic
 
 import "github.com/goplus/llgo/runtime/vs"
 
-func LoadUint32(p *uint32) uint32 { vs.PointNote("atomic load %p = %d", p, *p); return *p }
+func LoadUint32(p *uint32) uint32     { vs.PointNote("atomic load %p = %d", p, *p); return *p }
 func StoreUint32(p *uint32, v uint32) { vs.PointNote("atomic store %p %d", p, v); *p = v }
-func AddUint32(p *uint32, d uint32) uint32 { vs.PointNote("atomic add %p %d+%d", p, *p, d); *p += d; return *p }
+func AddUint32(p *uint32, d uint32) uint32 {
+	vs.PointNote("atomic add %p %d+%d", p, *p, d)
+	*p += d
+	return *p
+}
 func SwapUint32(p *uint32, v uint32) uint32 { vs.Point(); o := *p; *p = v; return o }
 func CompareAndSwapUint32(p *uint32, o, n uint32) bool {
 	vs.PointNote("atomic cas %p cur=%d old=%d new=%d", p, *p, o, n)
@@ -15,8 +19,8 @@ func CompareAndSwapUint32(p *uint32, o, n uint32) bool {
 	}
 	return false
 }
-func LoadInt32(p *int32) int32 { vs.Point(); return *p }
-func StoreInt32(p *int32, v int32) { vs.Point(); *p = v }
+func LoadInt32(p *int32) int32         { vs.Point(); return *p }
+func StoreInt32(p *int32, v int32)     { vs.Point(); *p = v }
 func AddInt32(p *int32, d int32) int32 { vs.Point(); *p += d; return *p }
 func CompareAndSwapInt32(p *int32, o, n int32) bool {
 	vs.Point()
@@ -26,3 +30,73 @@ func CompareAndSwapInt32(p *int32, o, n int32) bool {
 	}
 	return false
 }
+
+func LoadUintptr(p *uintptr) uintptr     { vs.Point(); return *p }
+func StoreUintptr(p *uintptr, v uintptr) { vs.Point(); *p = v }
+func CompareAndSwapUintptr(p *uintptr, o, n uintptr) bool {
+	vs.Point()
+	if *p == o {
+		*p = n
+		return true
+	}
+	return false
+}
+
+// typed atomics as the standard sync package uses them
+type Int32 struct{ v int32 }
+
+func (x *Int32) Load() int32   { vs.PointNote("Int32.Load %p = %d", x, x.v); return x.v }
+func (x *Int32) Store(v int32) { vs.PointNote("Int32.Store %p %d", x, v); x.v = v }
+func (x *Int32) Add(d int32) int32 {
+	vs.PointNote("Int32.Add %p %d+%d", x, x.v, d)
+	x.v += d
+	return x.v
+}
+func (x *Int32) Swap(v int32) int32 { vs.Point(); o := x.v; x.v = v; return o }
+func (x *Int32) CompareAndSwap(o, n int32) bool {
+	vs.PointNote("Int32.CAS %p cur=%d old=%d new=%d", x, x.v, o, n)
+	if x.v == o {
+		x.v = n
+		return true
+	}
+	return false
+}
+
+type Uint32 struct{ v uint32 }
+
+func (x *Uint32) Load() uint32         { vs.PointNote("Uint32.Load %p = %d", x, x.v); return x.v }
+func (x *Uint32) Store(v uint32)       { vs.PointNote("Uint32.Store %p %d", x, v); x.v = v }
+func (x *Uint32) Add(d uint32) uint32  { vs.Point(); x.v += d; return x.v }
+func (x *Uint32) Swap(v uint32) uint32 { vs.Point(); o := x.v; x.v = v; return o }
+func (x *Uint32) CompareAndSwap(o, n uint32) bool {
+	vs.Point()
+	if x.v == o {
+		x.v = n
+		return true
+	}
+	return false
+}
+
+type Uint64 struct{ v uint64 }
+
+func (x *Uint64) Load() uint64   { vs.PointNote("Uint64.Load %p = %#x", x, x.v); return x.v }
+func (x *Uint64) Store(v uint64) { vs.PointNote("Uint64.Store %p %#x", x, v); x.v = v }
+func (x *Uint64) Add(d uint64) uint64 {
+	vs.PointNote("Uint64.Add %p %#x+%#x", x, x.v, d)
+	x.v += d
+	return x.v
+}
+func (x *Uint64) Swap(v uint64) uint64 { vs.Point(); o := x.v; x.v = v; return o }
+func (x *Uint64) CompareAndSwap(o, n uint64) bool {
+	vs.PointNote("Uint64.CAS %p cur=%#x old=%#x new=%#x", x, x.v, o, n)
+	if x.v == o {
+		x.v = n
+		return true
+	}
+	return false
+}
+
+type Bool struct{ v bool }
+
+func (x *Bool) Load() bool   { vs.Point(); return x.v }
+func (x *Bool) Store(v bool) { vs.Point(); x.v = v }
